@@ -11,6 +11,7 @@ mod c06;
 mod c08;
 mod c15;
 mod c16;
+mod c17;
 
 use std::collections::BTreeMap;
 use std::io::Write;
@@ -94,13 +95,14 @@ fn main() {
         samples: vec![],
     };
     // panics inside the code under test are caught per case; silence the default hook's noise
-    std::panic::set_hook(Box::new(|_| {}));
+    std::panic::set_hook(Box::new(|i| { if std::env::var("VERIF_PANIC_TRACE").is_ok() { eprintln!("{i}"); } }));
     match group.as_str() {
         "c06" => c06::run(&args, &mut out),
         "c08" => c08::run(&args, &mut out),
         "c10" => c08::run_c10(&args, &mut out),
         "c15" => c15::run(&args, &mut out),
         "c16" => c16::run(&args, &mut out),
+        "c17" => c17::run(&args, &mut out),
         other => {
             eprintln!("unknown group {other}");
             std::process::exit(2);
